@@ -2,7 +2,7 @@
 
    p hostMAC routerMAC lanAddr lanBits frameHex spareHex
      model column: what Session.Parse and every Frame accessor do on the slice
-                   (arr = frame ++ spare, len = |frame|): "err:any" | "panic" | "ok id src dst views... host"
+                   (arr = frame ++ spare, len = |frame|): "err:EFrameLen" | "err:EParseFrame" | "panic" | "ok id src dst views... host"
      spec column:  "-" (C01 is a safety property: the expectation is "no panic, same as with no spare capacity")
      key column:   "-" when the model neither panics (Parse or an accessor) nor depends on the spare capacity;
                    otherwise the key of the recorded defect class the frame lies in
